@@ -37,6 +37,20 @@ Theorem C16_exact_every_impl :
 Proof. exact exact_all. Qed.
 Print Assumptions C16_exact_every_impl.
 
+(** ... also through a trait object: for every provided impl, tracing the value as [dyn DynCollect]
+    (or as a user trait object made collectable with [dyn_collect!]) hands the real tracer exactly
+    the same pointers with the same strengths -- the forwarding tracer of [src/collect.rs], as read
+    from the current source, passes strong pointers on as strong and weak ones as weak, overrides
+    nothing else, and [Trace] gives neither method a default body. *)
+Theorem C16_dyn_adapter_exact :
+  dyn_adapter_ok dyn_adapter_real = true /\
+  (forall a evs, dyn_adapter_ok a = true -> through_adapter a evs = evs) /\
+  (forall i, In i impls -> in_scope i = true ->
+     forall c, content_ok i c ->
+       Permutation (sem_dyn tables_real trace_default dyn_adapter_real i c) (all_pointers tables_real i c)).
+Proof. exact (conj dyn_adapter_check (conj (fun a evs H => adapter_identity a H evs) dyn_exact_all)). Qed.
+Print Assumptions C16_dyn_adapter_exact.
+
 (** Impls that claim "no tracing needed" (NEEDS_TRACE = false and an empty trace) exist only for
     types that cannot contain arena pointers: the where clause says [Self: 'static], or every
     type parameter is bounded ['static] (vacuous when there is none), or the type is
@@ -112,3 +126,20 @@ Proof. vm_compute. reflexivity. Qed.
 (** The generated list is not empty and not all filtered out. *)
 Example ex_scope_nonempty : 60 <= List.length (filter in_scope impls).
 Proof. vm_compute. repeat constructor. Qed.
+
+(** The adapter checker discriminates: a forwarding tracer that reports weak pointers as strong (they
+    would be retained), or drops them (their targets would be freed under the holder), is rejected,
+    and its [through_adapter] visibly differs. *)
+Example ex_adapter_rejects :
+  let weak_as_strong := {| da_trait_gc_required := true; da_trait_weak_required := true;
+                           da_dyn_collect_body := "self.dyn_trace(cc)"; da_dyn_trace_body := "self.trace(&mut W(cc))";
+                           da_wrap_gc := FwdGc; da_wrap_weak := FwdGc; da_wrap_other := [];
+                           da_macro_bodies := ["$crate::collect::DynCollect::dyn_trace(self,cc);"] |} in
+  let weak_dropped := {| da_trait_gc_required := true; da_trait_weak_required := false;
+                         da_dyn_collect_body := "self.dyn_trace(cc)"; da_dyn_trace_body := "self.trace(&mut W(cc))";
+                         da_wrap_gc := FwdGc; da_wrap_weak := FwdUnknown "missing"; da_wrap_other := [];
+                         da_macro_bodies := ["$crate::collect::DynCollect::dyn_trace(self,cc);"] |} in
+  dyn_adapter_ok weak_as_strong = false /\ dyn_adapter_ok weak_dropped = false
+  /\ through_adapter weak_as_strong [(1, Strong); (2, Weak)] = [(1, Strong); (2, Strong)]
+  /\ through_adapter weak_dropped [(1, Strong); (2, Weak)] = [(1, Strong)].
+Proof. vm_compute. repeat split. Qed.
